@@ -321,7 +321,7 @@ func genEvidence(r *vf.Rng, c *Case) Ev {
 		}
 		return nil, false
 	}
-	switch r.Intn(12) {
+	switch r.Intn(15) {
 	case 0, 1, 2: // real equivocation: two different votes of one kind
 		kind := int(r.Pick([]uint64{2, 2, 3, 5}))
 		a := 1 + r.Intn(6)
@@ -397,8 +397,62 @@ func genEvidence(r *vf.Rng, c *Case) Ev {
 	case 11: // wrong or out-of-range index, valid equivocation of key k
 		e.Signs = []Sign{sg(k, 1, e.Round, e.RIndex, 2), sg(k, 2, e.Round, e.RIndex, 2)}
 		e.Idx = uint32(r.Pick([]uint64{uint64(setLen), uint64(setLen + 1), uint64(e.Idx + 1), 4294967295, 0}))
+	case 12, 13, 14: // ONE genuine signature relabelled: the same signature bytes listed under several different hashes
+		e.Signs = relabelled(r, hv, k, e.Round, e.RIndex)
 	}
 	return e
+}
+
+// relabelled builds the signs of an evidence in which one genuine signature g
+// (an honest-run vote when there is one, else a fresh vote of key k) appears
+// under its own hash and, byte-identical, under one or more made-up hashes.
+// The genuine entry comes first, last or in the middle; 2 or 3+ entries;
+// sometimes a second genuine signature (another hash) is mixed in, which is
+// itself relabelled in a share of the cases.
+func relabelled(r *vf.Rng, hv []Sign, k int, round uint64, idx uint32) []Sign {
+	g := sg(k, 1+r.Intn(6), round, idx, 2)
+	if len(hv) > 0 && r.Chance(65) {
+		g = hv[r.Intn(len(hv))]
+	}
+	fake := func(of Sign, h int) Sign { // the signature of `of`, claimed for hash h
+		f := of
+		f.Hash = h
+		f.Kind = 0
+		return f
+	}
+	n := 1
+	if r.Chance(40) {
+		n = 2 + r.Intn(3)
+	}
+	var fakes []Sign
+	for i := 0; i < n; i++ {
+		fakes = append(fakes, fake(g, 20+r.Intn(6)+7*i))
+	}
+	var out []Sign
+	switch r.Intn(3) {
+	case 0: // genuine first
+		out = append([]Sign{g}, fakes...)
+	case 1: // genuine last
+		out = append(fakes, g)
+	default: // genuine in the middle (or no genuine entry at all when there is a single fake)
+		m := len(fakes) / 2
+		out = append(append(append([]Sign{}, fakes[:m]...), g), fakes[m:]...)
+		if len(fakes) == 1 && r.Chance(30) {
+			out = []Sign{fakes[0], fake(g, 40)}
+		}
+	}
+	if r.Chance(35) { // mixed with a second genuine signature
+		g2 := sg(k, g.SHash+1+r.Intn(3), round, idx, g.Kind)
+		if len(hv) > 1 && r.Chance(50) {
+			g2 = hv[r.Intn(len(hv))]
+		}
+		pos := r.Intn(len(out) + 1)
+		out = append(out[:pos], append([]Sign{g2}, out[pos:]...)...)
+		if r.Chance(40) {
+			out = append(out, fake(g2, 50+r.Intn(4)))
+		}
+	}
+	return out
 }
 
 // genVoterRun runs a real honest voter on the world of c (when its look-back
@@ -625,6 +679,12 @@ func classify(c *Case, res *vf.Result) {
 	}
 	for i := range c.Evs {
 		e := &c.Evs[i]
+		if e.Kind == "ds" && hasRelabel(e) {
+			res.Count("ev_one_signature_under_several_hashes")
+			if e.Round == c.Parent {
+				res.Count("ev_one_signature_under_several_hashes_parent_round_" + c.Mode)
+			}
+		}
 		switch {
 		case e.Kind != "ds":
 			res.Count("ev_" + e.Kind)
@@ -644,6 +704,18 @@ func classify(c *Case, res *vf.Result) {
 			res.Count("ev_not_confirmed_" + evClass(c, e))
 		}
 	}
+}
+
+// hasRelabel: two entries carry byte-identical signatures under different hashes.
+func hasRelabel(e *Ev) bool {
+	for i, a := range e.Signs {
+		for _, b := range e.Signs[i+1:] {
+			if a.Hash != b.Hash && a.By >= 0 && a.By == b.By && a.SHash == b.SHash && a.SRound == b.SRound && a.SIndex == b.SIndex {
+				return true
+			}
+		}
+	}
+	return false
 }
 
 // evClass describes an evidence of the parent round by what it proves.
@@ -706,6 +778,26 @@ func sortedKeys(m map[int]*ValObs) []int {
 	}
 	sort.Ints(ks)
 	return ks
+}
+
+// unverifiedPair checks every listed (hash, signature) pair of an evidence with
+// the BLS library under the key registered for the named validator, over
+// hash||round||index.  "" = all pairs verify.
+func unverifiedPair(e *Ev, sgn *LbVal) string {
+	if sgn.Bls < 0 {
+		return "the named validator's BLS key does not decode"
+	}
+	pk := key(sgn.Bls).pk
+	for j, s := range e.Signs {
+		sig, err := blsMgr.DecSignature(sigBytes(s))
+		if err != nil {
+			return fmt.Sprintf("signature %d does not decode", j)
+		}
+		if pk.Verify(payload(hashOf(s.Hash), e.Round, e.RIndex), sig) != nil {
+			return fmt.Sprintf("pair %d (hash %d) does not verify under the validator's key", j, s.Hash)
+		}
+	}
+	return ""
 }
 
 func valBefore(c *Case, k int) *CurVal {
@@ -944,6 +1036,18 @@ func oracle(c *Case, fx Fixes) []Hit {
 		}
 		if c.Mode == "penal" {
 			continue
+		}
+		// ---- accepted => EVERY listed (hash, signature) pair verifies, judged by the BLS library itself
+		for _, i := range o.Confirmed {
+			if i < 0 || i >= len(c.Evs) || c.Evs[i].Kind != "ds" {
+				continue
+			}
+			e := &c.Evs[i]
+			if sgn := expectedSigner(c, e); sgn != nil && !sgn.BadMain && sgn.Key == k {
+				if bad := unverifiedPair(e, sgn); bad != "" {
+					hit("accepted-evidence-with-unverified-pair", fmt.Sprintf("validator %d was penalised on evidence %d although %s", k, i, bad))
+				}
+			}
 		}
 		// ---- only real equivocation is slashable
 		// the evidence the implementation acted on: a confirmed one naming this
